@@ -41,7 +41,7 @@ def work(a):
     out = {}
     for sid in ids:
         d = D / sid
-        sh("git checkout -q -- . && git clean -fdq", wt)
+        sh("git reset -q --hard HEAD && git clean -fdq", wt)
         rc, _ = sh(f"git apply {d}/patch.diff", wt)
         if rc:
             rc, _ = sh(f"git apply --3way {d}/patch.diff", wt)
@@ -63,7 +63,7 @@ def work(a):
         out[sid] = r
         if write_static:
             (d / "static.json").write_text(json.dumps(r, indent=1))
-    sh("git checkout -q -- . && git clean -fdq", wt)
+    sh("git reset -q --hard HEAD && git clean -fdq", wt)
     return out
 
 
